@@ -573,14 +573,15 @@ def _reprint(sto):
 # ----------------------------------------------------------------------------------------------- molecules
 @st.composite
 def molecules(draw, avoid=frozenset(), chem="any", max_blocks=2, closed=True, implicit_forms=True, max_atoms=5,
-              families=None, lists=None, plain_ok=True, arche=None, small=True, marker=None, force_prefix=None):
+              families=None, lists=None, plain_ok=True, arche=None, small=True, marker=None, force_prefix=None, min_blocks=1,
+              fam=None):
     """A molecule AST (elements as the parser must see them, `written` as typed)."""
     if plain_ok and draw(st.integers(0, 11)) == 0:
         t = draw(token([], max_atoms=8, chem=chem, avoid=avoid, min_heavy=2))
         return Mol([t], [t.text_ext], None, "plain", "plain")
-    nblocks = draw(st.integers(1, max_blocks))
+    nblocks = draw(st.integers(min(min_blocks, max_blocks), max_blocks))
     start_prefix = draw(st.booleans()) if force_prefix is None else force_prefix
-    fam = draw(st.sampled_from(["<>", "<>", "$"]))
+    fam = fam or draw(st.sampled_from(["<>", "<>", "$"]))
     elements, written, labels = [], [], []
     # terminal symbols between blocks
     # direction: prefix carries `s`; every boundary: right terminal r, next left terminal l with compatible(r,l)
